@@ -10,13 +10,14 @@ REPO="${VERIF_REPO:-/repo}"
 W="$V/.work/$$"
 mkdir -p "$W" || exit 2
 trap 'rm -rf "$W"' EXIT
-cd "$V/engine" || exit 2
+ENGINE="${VERIF_ENGINE:-$V/engine}"   # selftest.py points this at a frozen copy
+cd "$ENGINE" || exit 2
 cmp -s "$REPO/go.sum" go.sum || cp "$REPO/go.sum" go.sum
-if ! go run ./cmd/mkoverlay -repo "$REPO" -shim "$V/engine/shim" -out "$W" ${VERIF_REPLACE:-} 2>"$W/mkoverlay.log"; then
+if ! go run ./cmd/mkoverlay -repo "$REPO" -shim "$ENGINE/shim" -out "$W" ${VERIF_REPLACE:-} 2>"$W/mkoverlay.log"; then
   cat "$W/mkoverlay.log" >&2; echo "harness error: mkoverlay failed" >&2; exit 2
 fi
 if ! go build -tags verif -overlay "$W/overlay.json" -o "$W/check" ./cmd/check 2>"$W/build.log"; then
   cat "$W/build.log" >&2; echo "harness error: build failed" >&2; exit 2
 fi
-export VERIF_WORK="$W" VERIF_OVERLAY="$W/overlay.json"
+export VERIF_WORK="$W" VERIF_OVERLAY="$W/overlay.json" VERIF_ENGINE="$ENGINE"
 "$W/check" "$@"
